@@ -20,7 +20,7 @@ CLAIMS = {
              note="Bounds: W=1 (quick) / W=2 (thorough) symbolic words; histories T=3,M<=2. Concurrent inserts are covered by the C18/C02 thread harnesses only. Known-finding regions of C02 (in-flight inserts, rollback) are not re-asserted here.",
              ref="DESIGN.md §4 C11"),
  "C12": dict(text="Symbolic model checking: every path of histories of InsertKey/UpsertKey/QueryKey/DeleteKey/SetKey over an alphabet of 2-3 keys (repeats forced) against a map model evaluated on committed state: every return value, every lookup (Row.Key and the value behind the key, symbolic), one live row per key, Count; several key operations per transaction, rollbacks, keyed rows in block 1 (block 0 full), histories that start from freed offsets still holding stale keys (four concrete pre-histories, symbolic choice), and re-keying from inside QueryKey and UpsertKey callbacks.",
-             note="Bounds: T<=3|4 transactions, M<=2|3 ops per transaction, alphabet 2|3. Known findings partitioned off: KF-key-check-then-act (same absent key twice in one transaction), KF-rollback-insert. Racing upserts are only covered as far as the thread harness of C18 goes.",
+             note="Bounds: T<=3 transactions, M<=2 ops per transaction, alphabet 2|3. Known findings partitioned off: KF-key-check-then-act (same absent key twice in one transaction), KF-rollback-insert. Racing upserts are only covered as far as the thread harness of C18 goes.",
              ref="DESIGN.md §4 C12"),
  "C15": dict(text="Symbolic model checking (sequential part): every path of histories of committed, rolled-back and read-only transactions over one and two blocks; after each transaction the commits that reached the logger (a user logger and commit.Channel) are exactly one per changed block, with non-zero, globally distinct, per-block increasing IDs.",
              note="Bounds: T<=2|3, M<=2, 2-4 pre-existing rows. Interleavings of concurrent writers: see C09 harness note. commit.Next() is modelled as a counter starting at a fixed value (wrap-around and restarts outside the claim).",
